@@ -138,8 +138,15 @@ def replay_one(prop, path):
     fd, out = tempfile.mkstemp(prefix="replay_", suffix=".json", dir=os.path.join(HERE, ".cache"))
     os.close(fd)
     cmd = [env.PY, "-m", "vlib.worker", prop, "--replay", path, "--out", out]
+    extra = None
     try:
-        p = subprocess.run(cmd, cwd=HERE, env=env.worker_env(), capture_output=True, text=True, timeout=1200)
+        # a sub-check may need its own process environment (e.g. NUMBA_BOUNDSCHECK=1)
+        sub_name = json.load(open(path)).get("sub")
+        extra = next((s.env for s in load_meta(prop).SUBS if s.name == sub_name), None)
+    except Exception:
+        pass
+    try:
+        p = subprocess.run(cmd, cwd=HERE, env=env.worker_env(extra=extra), capture_output=True, text=True, timeout=1200)
     except subprocess.TimeoutExpired:
         os.unlink(out)
         return dict(error="replay did not finish within 1200s (inconclusive)")
@@ -245,7 +252,7 @@ def main():
                 elif r["failed"] and r.get("known"):
                     known_confirmed.add(r["known"])
                 elif r["failed"]:
-                    violations.append(dict(sub=r["sub"], kind=r["kind"], message=r["message"],
+                    violations.append(dict(sub=r["sub"], kind=r["kind"], message=r["message"], from_regression=True,
                                            replay=os.path.join(reg_dir, r["file"]), bucket=f"{r['sub']}|{r['kind']}"))
 
     # 2. generated search
@@ -274,6 +281,34 @@ def main():
         b = v["bucket"]
         if b not in by_bucket or len(json.dumps(v.get("case"), default=str)) < len(json.dumps(by_bucket[b].get("case"), default=str)):
             by_bucket[b] = v
+
+    # a VIOLATION line promises a replay file that fails: every bucket found by the generated search is re-run from its
+    # saved input in a fresh process; what does not reproduce there (twice) is reported as an unconfirmed note instead
+    unconfirmed = []
+    if by_bucket:
+        from concurrent.futures import ThreadPoolExecutor
+
+        def confirm(item):
+            b, v = item
+            if v.get("from_regression") or not v.get("replay") or not os.path.exists(v["replay"]):
+                return b, "confirmed", None
+            r = {}
+            for _ in range(2):
+                r = replay_one(prop, v["replay"])
+                if r.get("failed"):
+                    return b, ("known" if r.get("known") else "confirmed"), r
+                if "error" in r:
+                    return b, "confirmed", r  # the replay itself could not be run: keep what the worker observed
+            return b, "unconfirmed", r
+
+        with ThreadPoolExecutor(max_workers=8) as ex:
+            for b, verdict, r in list(ex.map(confirm, list(by_bucket.items()))):
+                if verdict == "unconfirmed":
+                    v = by_bucket.pop(b)
+                    unconfirmed.append(dict(bucket=b, message=v.get("message", "")[:300], replay=v["replay"]))
+                elif verdict == "known":
+                    by_bucket.pop(b)
+                    merged["known_hits"][r["known"]] = merged["known_hits"].get(r["known"], 0) + 1
 
     known = core.active_known(prop)
     for f in known:
@@ -304,6 +339,7 @@ def main():
             work_items=len(items), workers=len(bins),
             harness_errors=len(harness_errors),
             wall_clock_budget_notes=budget_notes,
+            unconfirmed_failures=unconfirmed,
             engine="hypothesis %s + enumeration" % __import__("hypothesis").__version__,
             oracle=getattr(mod, "ORACLE", ""),
         ),
@@ -322,6 +358,9 @@ def main():
             print("   ", n_)
     for n_ in budget_notes[:8]:
         print("note:", n_)
+    for u in unconfirmed:
+        print(f"note: unconfirmed failure [{u['bucket']}] did not reproduce from its saved input in a fresh process (2 attempts), "
+              f"not reported as a violation; input kept at {u['replay']}: {u['message'][:200]}")
     print(f"{prop} tier={tier} seed={seed}: {merged['evaluations']} evaluations, {distinct} distinct non-trivial, "
           f"{len(by_bucket)} violation bucket(s), {len(harness_errors)} harness error(s), {wall:.0f}s")
     for b, v in sorted(by_bucket.items()):
